@@ -79,12 +79,25 @@ type PlanSpec struct {
 // ---------------------------------------------------------------------------------------------
 // request / response types of the scripted plugins
 
-type Req struct{ T string }
+type Req struct {
+	T string
+	N float64 `json:",omitzero"` // NaN makes the request un-encodable (C14)
+}
 
 func (r Req) Tag() string { return r.T }
 
 type Resp struct{ T string }
 type BadResp struct{ X int }
+
+// pointer-typed request/response for the storage round trip (C13)
+type PReq struct {
+	T    string
+	Opts map[string]int
+}
+type PResp struct {
+	T string
+	L []int
+}
 
 // ---------------------------------------------------------------------------------------------
 // events
@@ -227,17 +240,34 @@ type scriptPlugin struct {
 	check bool
 	sc    *scripts
 	tr    *tracer
+	ptr   bool
 }
 
 func (p *scriptPlugin) Name() string { return p.name }
 func (p *scriptPlugin) ValidateReq(req any) error {
+	if p.ptr {
+		if _, ok := req.(*PReq); !ok {
+			return fmt.Errorf("bad request type %T", req)
+		}
+		return nil
+	}
 	if _, ok := req.(Req); !ok {
 		return fmt.Errorf("bad request type %T", req)
 	}
 	return nil
 }
-func (p *scriptPlugin) Request() any  { return Req{} }
-func (p *scriptPlugin) Response() any { return Resp{} }
+func (p *scriptPlugin) Request() any {
+	if p.ptr {
+		return &PReq{}
+	}
+	return Req{}
+}
+func (p *scriptPlugin) Response() any {
+	if p.ptr {
+		return &PResp{}
+	}
+	return Resp{}
+}
 func (p *scriptPlugin) IsCheck() bool { return p.check }
 func (p *scriptPlugin) Init() error   { return nil }
 func (p *scriptPlugin) RetryPolicy() exponential.Policy {
@@ -452,6 +482,8 @@ func newRegistry(tr *tracer, sc *scripts) *registry.Register {
 	reg := registry.New()
 	reg.MustRegister(&scriptPlugin{name: "act", check: false, sc: sc, tr: tr})
 	reg.MustRegister(&scriptPlugin{name: "chk", check: true, sc: sc, tr: tr})
+	reg.MustRegister(&scriptPlugin{name: "pact", check: false, sc: sc, tr: tr, ptr: true})
+	reg.MustRegister(&scriptPlugin{name: "pchk", check: true, sc: sc, tr: tr, ptr: true})
 	return reg
 }
 
